@@ -631,7 +631,8 @@ func init() {
 	reg(&propDef{id: "C06", level: "exploration", crashIsViol: true,
 		batches: []batch{{name: "triggers", quick: 1500, thorough: 60000},
 			{name: "relaymode", params: map[string]string{"relaymode": "1"}, quick: 1500, thorough: 60000},
-			{name: "relaycc", params: map[string]string{"relaycc": "1"}, quick: 300, thorough: 8000}},
+			{name: "relaycc", params: map[string]string{"relaycc": "1"}, quick: 300, thorough: 8000},
+			{name: "slowwrite", params: map[string]string{"slowwrite": "1"}, quick: 300, thorough: 8000}},
 		rule:    "each evaluation feeds one real filter (with or without a tunnel connector) a sequence of 3-12 chunks: genuine triggers from a grammar (modes S/R/D, versions 0.0.0-10.200.3000, ids absent/short/13 digits with suffix 00/10/20/22/15 digits, port absent/present, arbitrary prefix bytes in the same read), truncated or one-byte-corrupted triggers, redraws repeating a deduplicated id seen among the last 40, scroll-back transcripts; a scripted server refuses every ACT; oracles: exactly one ACT (or, for an upload trigger with nothing to upload, one fail line) per genuine fresh trigger and none otherwise, ACT protocol 2 for server versions 1.1.0-1.1.3, Windows framing iff the id says so, connector called with the advertised port, negatives shown unmodified, and what the filter shows locally for a positive starts nothing in a second real filter; non-trivial = all items processed; distinct = distinct (connector + item kinds, schedule-trace hash, tape hash)"})
 	reg(&propDef{id: "C07", level: "exploration", crashIsViol: true,
 		batches: []batch{{name: "collisions", quick: 1200, thorough: 40000}},
